@@ -48,7 +48,7 @@ func (x *Exec) call(fr *Frame, st *State, ci ssa.CallInstruction) []string {
 	}
 	for _, a := range c.Args {
 		if la, ok := fr.laddr[a]; ok && la != nil {
-			x.unsupp("address of local %s passed to call in %s", la.alloc.Comment, fr.fn.String())
+			x.unsupp("address of local %s passed to call in %s", la.alloc.Comment, shortFn(fr.fn))
 		}
 		args = append(args, x.val(fr, st, a))
 		argTypes = append(argTypes, a.Type())
@@ -185,6 +185,8 @@ func (x *Exec) inlineCall(fr *Frame, st *State, fn *ssa.Function, args []string,
 func (x *Exec) callByContract(fr *Frame, st *State, ci ssa.CallInstruction, fc *FuncContract, fn *ssa.Function, args []string, argTypes []types.Type, sig *types.Signature) []string {
 	if fc.Extern {
 		x.usedExterns[fc.Key] = true
+	} else if fc.Trusted != "" {
+		x.usedExterns[shortKey(fc.Key)+" (repository function, contract assumed: "+fc.Trusted+")"] = true
 	} else {
 		x.usedContracts[fc.Key] = true
 	}
@@ -510,16 +512,16 @@ func wrapPath(base string, path []int) string {
 func (x *Exec) appendFrame(st *State, m0, m1, s, add, res, inPlace, newLen string, path []int) {
 	q := x.vc.fresh("q")
 	i := x.vc.fresh("i")
-	x.assume(st, fmt.Sprintf("(forall ((%s Ptr)) (! (=> (not %s) (= (select %s %s) (select %s %s))) :pattern ((select %s %s))))",
-		q, writtenCond(q, path, s, res, inPlace, newLen), m1, q, m0, q, m1, q))
+	x.assume(st, x.vc.quantified(fmt.Sprintf("(forall ((%s Ptr)) (! (=> (not %s) (= (select %s %s) (select %s %s))) :pattern ((select %s %s))))",
+		q, writtenCond(q, path, s, res, inPlace, newLen), m1, q, m0, q, m1, q)))
 	newOld := wrapPath(fmt.Sprintf("(pelem (sl_arr %s) (+ (sl_off %s) %s))", res, res, i), path)
 	oldOld := wrapPath(fmt.Sprintf("(pelem (sl_arr %s) (+ (sl_off %s) %s))", s, s, i), path)
-	x.assume(st, fmt.Sprintf("(forall ((%s Int)) (! (=> (and (<= 0 %s) (< %s (sl_len %s))) (= (select %s %s) (select %s %s))) :pattern ((select %s %s))))",
-		i, i, i, s, m1, newOld, m0, oldOld, m1, newOld))
+	x.assume(st, x.vc.quantified(fmt.Sprintf("(forall ((%s Int)) (! (=> (and (<= 0 %s) (< %s (sl_len %s))) (= (select %s %s) (select %s %s))) :pattern ((select %s %s))))",
+		i, i, i, s, m1, newOld, m0, oldOld, m1, newOld)))
 	newAdd := wrapPath(fmt.Sprintf("(pelem (sl_arr %s) (+ (sl_off %s) (sl_len %s) %s))", res, res, s, i), path)
 	oldAdd := wrapPath(fmt.Sprintf("(pelem (sl_arr %s) (+ (sl_off %s) %s))", add, add, i), path)
-	x.assume(st, fmt.Sprintf("(forall ((%s Int)) (! (=> (and (<= 0 %s) (< %s (sl_len %s))) (= (select %s %s) (select %s %s))) :pattern ((select %s %s))))",
-		i, i, i, add, m1, newAdd, m0, oldAdd, m1, newAdd))
+	x.assume(st, x.vc.quantified(fmt.Sprintf("(forall ((%s Int)) (! (=> (and (<= 0 %s) (< %s (sl_len %s))) (= (select %s %s) (select %s %s))) :pattern ((select %s %s))))",
+		i, i, i, add, m1, newAdd, m0, oldAdd, m1, newAdd)))
 }
 
 func (x *Exec) appendElemsStruct(st *State, et types.Type, s, add, res, inPlace, newLen string) {
@@ -652,6 +654,9 @@ func (x *Exec) emitCallsiteObl(fr *Frame, st *State, ci ssa.CallInstruction, cc 
 		name = fmt.Sprintf("%s/via:%s", name, shortFn(x.top))
 	}
 	o := x.addObl(st, "callsite", name, goal, x.p.pos(ci.Pos()), r.Text)
+	// vacuity guard: the call site itself must be reachable in the model
+	v := x.addObl(st, "vacuity", name+"/reachable", "true", x.p.pos(ci.Pos()), "the call site is reachable")
+	v.MustSat = true
 	_ = o
 	x.callsites = append(x.callsites, fmt.Sprintf("%s at %s", nm, x.p.pos(ci.Pos())))
 }
